@@ -66,6 +66,16 @@ class Ctx(object):
 
     def expect_violation(self, spec, cfg, inv=None, label=None, **kw):
         """Non-vacuity: a deviation instance must violate (some / the given) invariant."""
+        if inv is not None:
+            # only the expected invariant is checked: with several workers TLC may otherwise report whichever of two
+            # violable invariants it reaches first (a nondeterministic machinery failure)
+            lines = open(cfg).read().splitlines()
+            kept = [ln for ln in lines if not ln.strip().startswith("INVARIANT") or ln.split()[1:] == [inv]]
+            if not any(ln.strip().startswith("INVARIANT") for ln in kept):
+                kept.append("INVARIANT %s" % inv)
+            cfg = cfg[:-4] + "_only.cfg" if cfg.endswith(".cfg") else cfg + "_only"
+            with open(cfg, "w") as fh:
+                fh.write("\n".join(kept) + "\n")
         r = self.model_check(spec, cfg, expect_ok=False, label=label, **kw)
         if r.ok or (inv is not None and r.violated != inv):
             raise Machinery("non-vacuity failed: %s with %s expected violation of %s, got %s"
